@@ -719,7 +719,7 @@ def rangeStages (r : RangeAgg) : List StageTag :=
    | .unwrap fn _ => groupTag (chosenGrouping r.byPrefix r.bySuffix) ++ [.range true fn.name]) ++ cmpTag r.cmp
 
 def aggStages (a : VecAgg) : List StageTag :=
-  rangeStages a.inner ++ groupTag (chosenGrouping a.byPrefix a.bySuffix) ++ [.agg a.fn] ++ cmpTag a.cmp
+  rangeStages a.inner ++ [.group (aggGrouping a)] ++ [.agg a.fn] ++ cmpTag a.cmp   -- no grouping clause written = `by ()`
 
 /-- the matrix stages of a query in the order of the text (innermost first); no duration occurs in it -/
 def writtenStages : MetricQuery → List StageTag
@@ -748,10 +748,10 @@ theorem shortcutRange_tags (r : RangeAgg) : (shortcutRange r).flatMap Step.tags 
   cases r.kind <;> simp [List.flatMap_append, cmpStep_tags, Step.tags]
 
 theorem orderAgg_tags (a : VecAgg) : (orderAgg a).flatMap Step.tags = aggStages a := by
-  simp [orderAgg, aggStages, List.flatMap_append, orderRange_tags, cmpStep_tags, Step.tags]
+  simp [orderAgg, aggStages, List.flatMap_append, orderRange_tags, cmpStep_tags, Step.tags, groupTag]
 
 theorem shortcutAgg_tags (a : VecAgg) : (shortcutAgg a).flatMap Step.tags = aggStages a := by
-  simp [shortcutAgg, aggStages, List.flatMap_append, shortcutRange_tags, cmpStep_tags, Step.tags]
+  simp [shortcutAgg, aggStages, List.flatMap_append, shortcutRange_tags, cmpStep_tags, Step.tags, groupTag]
 
 theorem functionOrder_tags (q : MetricQuery) : (functionOrder q).flatMap Step.tags = writtenStages q := by
   cases q with
